@@ -134,6 +134,7 @@ pub broadcast axiom fn axiom_string_key_model()
     ensures #[trigger] vstd::std_specs::hash::obeys_key_model::<String>();
 
 pub broadcast group group_std_ext {
+    lemma_muldiv_le,
     axiom_string_key_model,
     axiom_parse_u64,
     axiom_pat_view_str,
@@ -186,10 +187,10 @@ pub proof fn lemma_muldiv_floor(a: nat, b: nat, c: nat)
     let p = a * b;
     assert((p / c) * c <= p && p < (p / c + 1) * c) by (nonlinear_arith) requires c > 0;
 }
-/// b <= c  ==>  muldiv(a,b,c) <= a
-pub proof fn lemma_muldiv_le(a: nat, b: nat, c: nat)
+/// b <= c  ==>  muldiv(a,b,c) <= a      (broadcast: available wherever the term occurs)
+pub broadcast proof fn lemma_muldiv_le(a: nat, b: nat, c: nat)
     requires c > 0, b <= c,
-    ensures muldiv(a, b, c) <= a,
+    ensures #[trigger] muldiv(a, b, c) <= a,
 {
     assert(a * b <= a * c) by (nonlinear_arith) requires b <= c;
     assert((a * b) / c <= a) by (nonlinear_arith) requires a * b <= a * c, c > 0;
